@@ -234,7 +234,8 @@ func runCase(dir string, c Case, exe string, env []string) (res runResult) {
 		return
 	}
 	evs, complete, err := readEvents(evPath)
-	if err != nil || !complete || cr.ExitCode != 0 {
+	// a -race child exits with 66 when the detector reported something; its event file is still complete
+	if err != nil || !complete || (cr.ExitCode != 0 && !(c.Light && cr.ExitCode == 66)) {
 		res.inconclusive = fmt.Sprintf("case %d: child exit=%d complete=%v err=%v output=%q", c.Idx, cr.ExitCode, complete, err, tailOf(cr.Output, 400))
 		return
 	}
@@ -242,8 +243,8 @@ func runCase(dir string, c Case, exe string, env []string) (res runResult) {
 	if c.Light {
 		end := evs[len(evs)-1]
 		res.st.End = end.X
-		res.st.HeldCommit = end.Need // sections that saw >=1 tick and >=1 merge since their first write (live count)
-		res.st.Ticks = end.N
+		res.st.HeldCommit = end.Held // sections that saw >=1 tick and >=1 merge since their first write (live count)
+		res.st.Ticks = end.Ticks
 		if end.X != "ok" {
 			res.inconclusive = fmt.Sprintf("race case %d: %s", c.Idx, end.X)
 		}
@@ -266,7 +267,6 @@ type raceReport struct {
 	Decides bool      `json:"decides"`
 	Text    string    `json:"text"`
 }
-
 
 func parseRaceLogs(glob string) []raceReport {
 	files, _ := filepath.Glob(glob)
@@ -292,7 +292,10 @@ func parseRaceLogs(glob string) []raceReport {
 					tops = append(tops, fn)
 				}
 			}
-			r := raceReport{Text: tailOf(blk, 3000)}
+			r := raceReport{Text: strings.TrimSpace(blk)}
+			if len(r.Text) > 1500 {
+				r.Text = r.Text[:1500] + " …"
+			}
 			if len(tops) >= 2 {
 				r.Tops = [2]string{tops[0], tops[1]}
 				sort.Strings(r.Tops[:])
@@ -357,8 +360,11 @@ func main() {
 		replay(r)
 		return
 	}
-	nBehav := r.Pick(56, 640)
-	nRace := r.Pick(8, 64)
+	nBehav := r.Pick(48, 480)
+	nRace := r.Pick(6, 48)
+	if v := os.Getenv("VERIF_C13_RUNS"); v != "" { // development aid: "<behavioural>,<race>"
+		fmt.Sscanf(v, "%d,%d", &nBehav, &nRace)
+	}
 	workers := r.Pick(8, 12)
 	rng := r.Rand("cases")
 	var cases []Case
@@ -417,12 +423,20 @@ func main() {
 			"committed_after_tick_and_merge_since_write": st.HeldCommit, "aborted_after_tick_and_merge_since_write": st.HeldAbort,
 			"commits_with_round_started_between_write_and_commit": st.RoundInSecCommit, "aborts_with_merge_during_section": st.MergeInSecAbort,
 			"commits_during_in_flight_round": st.CommitDuringRound,
-			"payloads_checked": st.PayloadsChecked, "reads_judged": st.ReadsJudged, "reads_in_aborted_sections_not_judged": st.ReadsDiscarded,
+			"payloads_checked":               st.PayloadsChecked, "reads_judged": st.ReadsJudged, "reads_in_aborted_sections_not_judged": st.ReadsDiscarded,
 			"delivery_obligations": st.Obligations, "delivery_obligations_decided": st.ObligationsDecided, "final_reads": st.FinalReads} {
 			sum[k] += v
 		}
 		if st.ConvergenceJudged {
 			convergence++
+		}
+		sum["failed_or_timed_out_sends"] += st.FailedSends
+		sum["committed_updates_not_judged_because_origin_stopped_within_tick_bound"] += st.OriginStoppedEarly
+		if int(st.StallUs) > sum["max_process_stall_us"] {
+			sum["max_process_stall_us"] = int(st.StallUs)
+		}
+		if st.StallUs > 500000 {
+			sum["runs_with_process_stall_over_500ms"]++
 		}
 		if st.Quiesced != "ok" {
 			sum["runs_quiescence_capped"]++
